@@ -194,10 +194,17 @@ func execute(t *trial) (*observed, string) {
 	// exhausted every further Read returns EOF and the channel winds down.
 	tr.SetTerminal(io.EOF)
 	h := &handler{progs: t.Progs}
-	rig := mon.NewRig(mon.RigOpts{
+	opts := mon.RigOpts{
 		Mode: t.Mode, Queue: t.Queue, Tr: tr, NoPark: true, QuietTail: true, NoHooks: true,
 		Handlers: []netty.Handler{xhttp.ServerCodec(), xhttp.Handler(h)},
-	})
+	}
+	if t.Mode != mon.Sync && len(t.Reqs)%2 == 1 {
+		// queued channel: every time the background sender has released the write queue it is held briefly
+		// until a Close has been elected - the window in which Close decides whether everything was flushed
+		opts.NoHooks = false
+		opts.Plan = []mon.Step{{At: "sRel", Occ: 0, Kind: mon.Gate, Until: "cEl", UntilCount: 1, Timeout: 15 * time.Millisecond}}
+	}
+	rig := mon.NewRig(opts)
 	defer rig.Dispose()
 	select {
 	case <-tr.Closed():
